@@ -39,6 +39,8 @@ def live_plain_tree(value):
         return {"salt": "", "digest": ""}
     if isinstance(value, (bytes, bytearray)):
         return ""
+    if type(value) is tuple:
+        return tuple(live_plain_tree(x) for x in value)
     if isinstance(value, (list, tuple)):
         return [live_plain_tree(x) for x in (list.__iter__(value) if isinstance(value, list) else value)]
     if isinstance(value, dict):
@@ -479,7 +481,7 @@ class PersistScenario(StateScenario):
         # was the state representable in this format?  judged on the values the configuration holds, without calling into
         # the library again (an extra to_tree() would open the key file and could mask or heal what the save left behind)
         tree0 = live_plain_tree(cfg)
-        if plain_only(tree0) or not ops.in_format_domain(fmt, tree0):
+        if (plain_only(tree0) and not (self.prop == "C19" and fmt in ("yaml", "pickle"))) or not ops.in_format_domain(fmt, tree0):
             rec.log("save", "out-of-domain", fmt)
             rec.probe("save-skipped:out-of-domain")
             return
@@ -893,7 +895,8 @@ class PersistScenario(StateScenario):
             if node["kind"] in ("method",) or schema.is_cfg_node(node) or value is schema.MISSING or path in skip:
                 return
             if node.get("dynamic"):
-                nons.append((path, value, node))
+                if "." not in str(node.get("rawkey", "")):      # an undeclared key "a.b" cannot be told from the path a.b
+                    nons.append((path, value, node))
                 return
             is_sens = node.get("o", {}).get("sensitive", node["kind"] == "secure")
             if node["kind"] == "list" and node.get("item") and schema.is_cfg_node(node["item"]):
